@@ -30,8 +30,8 @@ const CH4: &[char] = &['😀', '𝄞', '\u{10000}', '\u{10ffff}', '🦀'];
 fn rand_char(rng: &mut Rng, small_cp: bool) -> char {
     if small_cp {
         // code points below U+0800 (keeps the char-wise code table tiny: used under Miri)
-        match rng.below(3) {
-            0 | 1 => *rng.pick(CH1),
+        match rng.below(2) {
+            0 => *rng.pick(CH1),
             _ => *rng.pick(&CH2[..5]),
         }
     } else {
@@ -231,6 +231,8 @@ pub enum HayClass {
     Planted,
     NearMiss,
     Absent,
+    /// occurrences with a unit foreign to the patterns inserted in their middle
+    Interrupted,
 }
 
 /// A haystack of roughly `target` bytes related to the pattern set. Always valid UTF-8 when
@@ -243,6 +245,7 @@ pub fn gen_haystack(rng: &mut Rng, spec: &Spec, target: usize) -> (Vec<u8>, HayC
         HayClass::Planted,
         HayClass::NearMiss,
         HayClass::Absent,
+        HayClass::Interrupted,
     ]);
     let mut out: Vec<u8> = Vec::with_capacity(target + 8);
     // alphabet: the units (bytes or chars) occurring in the patterns
@@ -299,6 +302,24 @@ pub fn gen_haystack(rng: &mut Rng, spec: &Spec, target: usize) -> (Vec<u8>, HayC
                 if rng.chance(1, 3) {
                     out.extend_from_slice(pickv(rng, &absent));
                 } else {
+                    out.extend_from_slice(pickv(rng, &units));
+                }
+            }
+            HayClass::Interrupted => {
+                let p = pickv(rng, &spec.patterns);
+                // split the pattern at a unit boundary and put a foreign unit in between
+                let cuts: Vec<usize> = if utf8 {
+                    std::str::from_utf8(p).unwrap().char_indices().map(|(i, _)| i).chain([p.len()]).collect()
+                } else {
+                    (0..=p.len()).collect()
+                };
+                let cut = cuts[rng.below(cuts.len())];
+                out.extend_from_slice(&p[..cut]);
+                if rng.chance(3, 4) {
+                    out.extend_from_slice(pickv(rng, &absent));
+                }
+                out.extend_from_slice(&p[cut..]);
+                if rng.chance(1, 3) {
                     out.extend_from_slice(pickv(rng, &units));
                 }
             }
